@@ -180,6 +180,138 @@ impl VerifBox for PeerIdBox {
                     Err(_) => "err invalid".to_string(),
                 }
             }
+            // ---- ed25519 key material (ed25519.rs, crypto/mod.rs) and the remaining `PeerId` conversions
+            ["kpbytes", data, ..] if is_hex(data) => {
+                let original = unhex(data);
+                let mut buffer = original.clone();
+                match ed25519::Keypair::try_from_bytes(&mut buffer) {
+                    Ok(kp) => {
+                        let secret = kp.secret();
+                        let demoted = ed25519::SecretKey::from(kp.clone());
+                        let promoted = ed25519::Keypair::from(secret.clone());
+                        let consistent = secret.to_bytes() == demoted.to_bytes()
+                            && secret.as_ref() == &secret.to_bytes()[..]
+                            && promoted.public() == kp.public()
+                            && promoted.to_bytes() == kp.to_bytes()
+                            && format!("{secret:?}") == "SecretKey"
+                            && !format!("{kp:?}").is_empty();
+                        format!(
+                            "ok pub={} sec={} zeroed={} rt={} c={}",
+                            hex(&kp.public().to_bytes()),
+                            hex(&secret.to_bytes()),
+                            buffer.iter().all(|b| *b == 0) as u8,
+                            (kp.to_bytes()[..] == original[..]) as u8,
+                            consistent as u8
+                        )
+                    }
+                    Err(_) => format!("err kept={}", (buffer == original) as u8),
+                }
+            }
+            ["skbytes", data, ..] if is_hex(data) => {
+                let original = unhex(data);
+                let mut buffer = original.clone();
+                match ed25519::SecretKey::try_from_bytes(&mut buffer) {
+                    Ok(sk) => format!(
+                        "ok sec={} pub={} zeroed={}",
+                        hex(&sk.to_bytes()),
+                        hex(&ed25519::Keypair::from(sk).public().to_bytes()),
+                        buffer.iter().all(|b| *b == 0) as u8
+                    ),
+                    Err(_) => format!("err kept={}", (buffer == original) as u8),
+                }
+            }
+            ["pkbytes", data, ..] if is_hex(data) => match ed25519::PublicKey::try_from_bytes(&unhex(data)) {
+                Ok(key) => {
+                    let text = format!("{key:?}");
+                    let consistent = key.as_bytes() == &key.to_bytes()[..]
+                        && key == key.clone()
+                        && text.starts_with("PublicKey(compressed): ");
+                    format!("ok {} c={}", hex(&key.to_bytes()), consistent as u8)
+                }
+                Err(_) => "err badkey".to_string(),
+            },
+            ["pkproto", data, ..] if is_hex(data) => {
+                use prost::Message;
+                let blob = unhex(data);
+                let local = match crate::crypto::keys_proto::PublicKey::decode(&blob[..]) {
+                    Err(_) => "err decode".to_string(),
+                    Ok(proto) => match PublicKey::try_from(proto) {
+                        Ok(PublicKey::Ed25519(key)) => format!("ok {}", hex(&key.to_bytes())),
+                        Err(crate::error::ParseError::UnknownKeyType(_)) => "err type".to_string(),
+                        Err(crate::error::ParseError::InvalidPublicKey) => "err badkey".to_string(),
+                        Err(_) => "err other".to_string(),
+                    },
+                };
+                let remote = match crate::crypto::RemotePublicKey::from_protobuf_encoding(&blob) {
+                    Ok(crate::crypto::RemotePublicKey::Ed25519(key)) => format!("ok {}", hex(&key.to_bytes())),
+                    Err(crate::error::ParseError::UnknownKeyType(_)) => "err type".to_string(),
+                    Err(crate::error::ParseError::InvalidPublicKey) => "err badkey".to_string(),
+                    Err(crate::error::ParseError::ProstDecodeError(_)) => "err decode".to_string(),
+                    Err(_) => "err other".to_string(),
+                };
+                if local == remote {
+                    local
+                } else {
+                    format!("err inconsistent local={local} remote={remote}")
+                }
+            }
+            ["edverify", key, msg, sig, ..] if is_hex(key) && is_hex(msg) && is_hex(sig) =>
+                match ed25519::PublicKey::try_from_bytes(&unhex(key)) {
+                    Ok(key) => {
+                        let direct = key.verify(&unhex(msg), &unhex(sig));
+                        let remote =
+                            crate::crypto::RemotePublicKey::Ed25519(key).verify(&unhex(msg), &unhex(sig));
+                        if direct == remote {
+                            direct.to_string()
+                        } else {
+                            "err inconsistent".to_string()
+                        }
+                    }
+                    Err(_) => "err badkey".to_string(),
+                },
+            ["edsign", sk, msg, ..] if is_hex(sk) && is_hex(msg) => {
+                match ed25519::SecretKey::try_from_bytes(unhex(sk)) {
+                    Ok(sk) => {
+                        let kp = ed25519::Keypair::from(sk);
+                        let sig = kp.sign(&unhex(msg));
+                        format!("ok {} v={}", hex(&sig), kp.public().verify(&unhex(msg), &sig) as u8)
+                    }
+                    Err(_) => "err badkey".to_string(),
+                }
+            }
+            ["conv", data, ..] if is_hex(data) => {
+                // TryFrom<Vec<u8>>, TryFrom<Multihash>, From<PeerId> for Multihash / Vec<u8>
+                let bytes = unhex(data);
+                let from_vec = PeerId::try_from(bytes.clone());
+                let from_bytes = PeerId::from_bytes(&bytes);
+                let parsed = multihash::Multihash::<64>::from_bytes(&bytes).ok();
+                let via_multihash = parsed.map(|mh| (PeerId::try_from(mh), PeerId::from_multihash(mh)));
+                match (from_vec, from_bytes) {
+                    (Ok(a), Ok(b)) if a == b => {
+                        let mh: multihash::Multihash<64> = a.into();
+                        let v: Vec<u8> = a.into();
+                        let same = match via_multihash {
+                            Some((Ok(x), Ok(y))) => x == a && y == a,
+                            _ => false,
+                        };
+                        if mh.to_bytes() == a.to_bytes() && v == a.to_bytes() && same {
+                            format!("ok {}", hex(&a.to_bytes()))
+                        } else {
+                            "err inconsistent".to_string()
+                        }
+                    }
+                    (Err(v), Err(_)) if v == bytes => {
+                        // the multihash routes must refuse as well (and hand the value back)
+                        match via_multihash {
+                            None => "err multihash".to_string(),
+                            Some((Err(x), Err(y))) if Some(x) == parsed && Some(y) == parsed =>
+                                "err multihash".to_string(),
+                            _ => "err inconsistent".to_string(),
+                        }
+                    }
+                    _ => "err inconsistent".to_string(),
+                }
+            }
             _ => "bad-op".to_string(),
         }
     }
